@@ -178,6 +178,10 @@ class TemplateHandler(dict):
         except ParserException as exc:
             print("Failed to load '%s' due to parser errors:\n %s" % (url, exc))
             return None
+        except Exception as exc:
+            # e.g. an included resource that cannot be loaded or resolved
+            print("Failed to load '%s': %s" % (url, exc))
+            return None
 
         # The first result published for a URL stays the cached one: concurrent
         # loads of the same URL all return the same object.
